@@ -350,13 +350,18 @@ def module_chain(ctx, obj, shape, p_unknown):
     return {"op": "new", "obj": obj, "cls": "Rule"}, calls, ev
 
 
-def layer_chain(ctx, obj, shape, prefer_typo=False, p_unknown_layer=0.0):
+def layer_chain(ctx, obj, shape, prefer_typo=False, p_unknown_layer=0.0, avoid_typo=False):
     v, i, o = shape
-    aid = ctx.arch(prefer_typo)
+    aid = ctx.arch(prefer_typo or avoid_typo)
     if aid is None:
         return None
     arch = ctx.wd["archs"][aid]
     layers = [l[0] for l in arch["layers"]]
+    if avoid_typo:
+        # the definition with the typo, but a rule that (so far) names only its sound layers
+        sound = [l for l in layers if l != arch["typo_layer"]]
+        layers = sound if len(sound) >= 2 else layers
+        prefer_typo = False
     rng = ctx.rng
     subj = arch["typo_layer"] if prefer_typo and arch["typo_layer"] and rng.random() < 0.5 \
         else W.pick(rng, layers)
@@ -512,7 +517,8 @@ def chain_reuse(ctx, client):
             shape = (shape[0], "should_not", shape[2], None)
         new, calls, ev = module_chain(ctx, ctx.obj("M", client), shape, 0.0)
     elif fam == "layer":
-        built = layer_chain(ctx, ctx.obj("L", client), W.pick(rng, LAYER_SHAPES))
+        built = layer_chain(ctx, ctx.obj("L", client), W.pick(rng, LAYER_SHAPES),
+                            avoid_typo=rng.random() < 0.5)
         if built is None:
             return None, None
         new, calls, ev = built
@@ -554,8 +560,17 @@ def chain_reuse(ctx, client):
                 extra = [_call(obj, "layers_that")]
             elif r < 0.75:
                 extra = [_call(obj, W.pick(rng, list(LAYER_ANY)))]
-            elif r < 0.9:
+            elif r < 0.82:
                 extra = [_call(obj, "are_named", "LX")]
+            elif r < 0.93:
+                # one more layer on the current side: a defined one - possibly the one whose
+                # definition holds a module that no architecture contains
+                aid = next((c["a"][0]["$obj"] for c in calls if c.get("m") == "based_on"), None)
+                arch = ctx.wd["archs"].get(aid) if aid else None
+                if arch:
+                    layer = arch.get("typo_layer") if arch.get("typo_layer") and rng.random() < 0.7 \
+                        else W.pick(rng, [l[0] for l in arch["layers"]])
+                    extra = [_call(obj, "are_named", layer)]
             else:
                 extra = [_call(obj, W.pick(rng, list(LAYER_ACCESS)))]
         else:
